@@ -37,15 +37,15 @@ func (o *Obligation) Key() string {
 
 // Report collects the obligations of one check run.
 type Report struct {
-	Prop     string
-	Tier     string
-	Obs      []*Obligation
-	Floors   map[string]int // rule -> minimum number of instances
-	Notes    []string
-	Analysed map[string]int
-	Rules    map[string]string // rule -> one-line statement
-	Fixtures []FixtureResult
-	Extra    map[string]interface{}
+	Prop      string
+	Tier      string
+	Obs       []*Obligation
+	Floors    map[string]int // rule -> minimum number of instances
+	Notes     []string
+	Analysed  map[string]int
+	Rules     map[string]string // rule -> one-line statement
+	Fixtures  []FixtureResult
+	Extra     map[string]interface{}
 	AltCounts map[string]int // per-rule instance counts seen on the inlining views
 }
 
@@ -94,12 +94,12 @@ func (r *Report) Decide(cond bool, rule, construct, instance, pos, heldMsg, refu
 // known findings
 
 type KnownFinding struct {
-	Property  string `json:"property"`
-	Key       string `json:"key"`    // obligation key
-	Status    string `json:"status"` // open | fixed
-	Commit    string `json:"commit,omitempty"`
-	What      string `json:"what"`
-	Demo      string `json:"demo,omitempty"`
+	Property string `json:"property"`
+	Key      string `json:"key"`    // obligation key
+	Status   string `json:"status"` // open | fixed
+	Commit   string `json:"commit,omitempty"`
+	What     string `json:"what"`
+	Demo     string `json:"demo,omitempty"`
 }
 
 type KnownFindings struct {
